@@ -68,13 +68,19 @@ def clearTags (p : PState) : PState := if p.keepTags then p else { p with tags :
 @[simp] theorem clearTags_states (p : PState) : (clearTags p).states = p.states := by unfold clearTags; split <;> rfl
 @[simp] theorem clearTags_toks (p : PState) : (clearTags p).toks = p.toks := by unfold clearTags; split <;> rfl
 
+/-- `self.anchors.clear()` at the end of every document -/
+def clearAnchors (p : PState) : PState := { p with anchors := [] }
+@[simp] theorem clearAnchors_state (p : PState) : (clearAnchors p).state = p.state := rfl
+@[simp] theorem clearAnchors_states (p : PState) : (clearAnchors p).states = p.states := rfl
+@[simp] theorem clearAnchors_toks (p : PState) : (clearAnchors p).toks = p.toks := rfl
+
 def documentEnd (p : PState) : Res Out := do
   let t ← peekTok p
   match t.ty with
   | .documentEnd =>
-    .ok (.documentEnd, t.span, { clearTags (skipTok p) with state := .implicitDocumentStart })
+    .ok (.documentEnd, t.span, { clearAnchors (clearTags (skipTok p)) with state := .implicitDocumentStart })
   | _ => do
-    let p := clearTags p
+    let p := clearAnchors (clearTags p)
     let t2 ← peekTok p
     match t2.ty with
     | .versionDirective .. | .tagDirective .. =>
